@@ -210,8 +210,7 @@ impl GraphEngine {
             _guard: guard,
             txid,
             created_nodes: Vec::new(),
-            pending_label_additions: Vec::new(),
-            pending_label_removals: Vec::new(),
+            pending_label_ops: Vec::new(),
             created_external_ids: std::collections::HashSet::new(),
             memtable: MemTable::default(),
         }
@@ -661,8 +660,8 @@ pub struct WriteTxn<'a> {
     _guard: std::sync::MutexGuard<'a, ()>,
     txid: u64,
     created_nodes: Vec<(ExternalId, LabelId, InternalNodeId)>,
-    pending_label_additions: Vec<(InternalNodeId, LabelId)>,
-    pending_label_removals: Vec<(InternalNodeId, LabelId)>,
+    /// Label additions (`true`) and removals (`false`) in the order they were issued.
+    pending_label_ops: Vec<(bool, InternalNodeId, LabelId)>,
     created_external_ids: std::collections::HashSet<ExternalId>,
     memtable: MemTable,
 }
@@ -693,12 +692,12 @@ impl<'a> WriteTxn<'a> {
     }
 
     pub fn add_node_label(&mut self, node: InternalNodeId, label_id: LabelId) -> Result<()> {
-        self.pending_label_additions.push((node, label_id));
+        self.pending_label_ops.push((true, node, label_id));
         Ok(())
     }
 
     pub fn remove_node_label(&mut self, node: InternalNodeId, label_id: LabelId) -> Result<()> {
-        self.pending_label_removals.push((node, label_id));
+        self.pending_label_ops.push((false, node, label_id));
         Ok(())
     }
 
@@ -772,15 +771,13 @@ impl<'a> WriteTxn<'a> {
             }
         }
 
-        for (node_id, label_id) in &self.pending_label_additions {
-            labels_by_node
-                .entry(*node_id)
-                .or_default()
-                .insert(*label_id);
-        }
-
-        for (node_id, label_id) in &self.pending_label_removals {
-            if let Some(labels) = labels_by_node.get_mut(node_id) {
+        for (is_add, node_id, label_id) in &self.pending_label_ops {
+            if *is_add {
+                labels_by_node
+                    .entry(*node_id)
+                    .or_default()
+                    .insert(*label_id);
+            } else if let Some(labels) = labels_by_node.get_mut(node_id) {
                 labels.remove(label_id);
             }
         }
@@ -827,17 +824,18 @@ impl<'a> WriteTxn<'a> {
                     internal_id: *internal_id,
                 })?;
             }
-            for (node, label_id) in &self.pending_label_additions {
-                wal.append(&WalRecord::AddNodeLabel {
-                    node: *node,
-                    label_id: *label_id,
-                })?;
-            }
-            for (node, label_id) in &self.pending_label_removals {
-                wal.append(&WalRecord::RemoveNodeLabel {
-                    node: *node,
-                    label_id: *label_id,
-                })?;
+            for (is_add, node, label_id) in &self.pending_label_ops {
+                if *is_add {
+                    wal.append(&WalRecord::AddNodeLabel {
+                        node: *node,
+                        label_id: *label_id,
+                    })?;
+                } else {
+                    wal.append(&WalRecord::RemoveNodeLabel {
+                        node: *node,
+                        label_id: *label_id,
+                    })?;
+                }
             }
 
             // Edge tombstones are logged before edge creations: replay feeds the records
@@ -1068,8 +1066,7 @@ impl<'a> WriteTxn<'a> {
         }
 
         let has_new_nodes = !self.created_nodes.is_empty();
-        let has_label_additions = !self.pending_label_additions.is_empty();
-        let has_label_removals = !self.pending_label_removals.is_empty();
+        let has_label_ops = !self.pending_label_ops.is_empty();
 
         // 3. Apply created nodes to IdMap / Node Index
         {
@@ -1078,15 +1075,16 @@ impl<'a> WriteTxn<'a> {
             for (external_id, label_id, internal_id) in self.created_nodes {
                 idmap.apply_create_node(&mut pager, external_id, label_id, internal_id)?;
             }
-            for (node, label_id) in self.pending_label_additions {
-                idmap.apply_add_label(&mut pager, node, label_id)?;
-            }
-            for (node, label_id) in self.pending_label_removals {
-                idmap.apply_remove_label(&mut pager, node, label_id)?;
+            for (is_add, node, label_id) in self.pending_label_ops {
+                if is_add {
+                    idmap.apply_add_label(&mut pager, node, label_id)?;
+                } else {
+                    idmap.apply_remove_label(&mut pager, node, label_id)?;
+                }
             }
         }
 
-        let has_label_mutations = has_new_nodes || has_label_additions || has_label_removals;
+        let has_label_mutations = has_new_nodes || has_label_ops;
         if has_label_mutations {
             self.engine.update_published_node_labels();
         }
